@@ -1,6 +1,6 @@
 SPECIFICATION Spec
 CONSTANTS
-  RouteFirst = {"-", "hop1", "hop4.name"}
+  RouteFirst = {"-", "hop1", "hop2.tcp", "hop4.name"}
   RouteRest = {"hop1"}
   MaxRoute = 2
   ViaLens = {0, 1, 2}
